@@ -37,6 +37,17 @@ ASSUME \A p \in PPermsUpTo(5) : LNextIn(T[Len(p)], p) = ClassicalNext(p)
 ASSUME \A p \in PPermsUpTo(4) : PRank(PNextPerm(p)) = PRank(p) + 1
 ASSUME \A p \in PPermsUpTo(3) : ~\E r \in PPermsUpTo(4) : PPermLess(p, r) /\ PPermLess(r, PNextPerm(p))
 
+\* ---- rank without enumeration (used by Trace_C09 for lengths 9 to 12) -------------------
+ShorterT == [n \in 0..6 |-> LCountShorter(n)]
+ASSUME \A p \in PPermsUpTo(6) : /\ LRankBySplit(p) = LRankIn(T[Len(p)], p)
+                                /\ LOverallRankBySplit(p) = ShorterT[Len(p)] + LRankIn(T[Len(p)], p)
+ASSUME \A n \in 0..7 : PFact(n) = Cardinality(LAllPerms(n))
+ASSUME \A n \in 0..11 : LRankBySplit(PIdentity(n)) = 0 /\ LRankBySplit(PDecreasing(n)) = PFact(n) - 1
+ASSUME LRankBySplit(<<7, 6, 5, 4, 3, 2, 0, 1>>) = Cardinality(LAllPerms(8)) - 2
+\* strictly monotone along the classical successor on some long permutations
+ASSUME \A p \in {<<8, 0, 7, 1, 6, 2, 5, 3, 4>>, <<0, 9, 8, 7, 6, 5, 4, 3, 2, 1>>, <<3, 1, 4, 0, 5, 9, 2, 6, 8, 7>>} :
+          LRankBySplit(ClassicalNext(p)) = LRankBySplit(p) + 1
+
 \* ---- the sorted enumeration: strictly increasing, complete, index = rank -----------
 ASSUME \A n \in 0..5 : LET s == LSorted(T[n]) IN
           /\ Len(s) = Cardinality(T[n]) /\ {s[i] : i \in DOMAIN s} = T[n]
